@@ -5,7 +5,7 @@
 From Coq Require Import String List Morphisms.
 Require Import SC3.proofs.NumTac SC3.gen.Gen_builtins SC3.proofs.C12_num SC3.model.TaskQ SC3.model.Event.
 Require Import SC3.proofs.C09_order SC3.proofs.C14_keys SC3.proofs.C14_play SC3.proofs.C14_stream SC3.proofs.C14_pdur.
-Require Import SC3.proofs.C14_ppar SC3.proofs.C14_merge SC3.proofs.C14_mergethm SC3.proofs.C14_parfinal SC3.proofs.C14_ctl.
+Require Import SC3.proofs.C14_ppar SC3.proofs.C14_merge SC3.proofs.C14_mergethm SC3.proofs.C14_parfinal SC3.proofs.C14_ctl SC3.proofs.C14_embed.
 From Coq Require Import Sorting.
 Import ListNotations.
 Open Scope Q_scope.
@@ -220,6 +220,14 @@ Theorem played_events_keep_their_bundles : forall K lib lat k t e log, is_rest e
   sends_from K lib lat k (LEv t e :: log) = play_event K lib lat t k e ++ sends_from K lib lat (S k) log.
 Proof. exact sends_complete_l. Qed.
 
+(* ---- the embed protocol (sequential composition: Pseq of event patterns, Pn) -----------------------------------------------
+   whenever a stream ends, the value its __embed__ returns -- the input event of whatever Pseq / Pn embeds next, inside the
+   same pull -- is the event it was sent in that pull: no pattern (Pbind, Pmono, Pchain, Ppar, Pdelta, Pdur incl. its cut,
+   Pseq, Pn, at any nesting) hands on one of its own outputs (repaired code; ret_wf: no state of the released Pdelta) *)
+Theorem embed_returns_input : forall c K lib, fix_pchain_return c = true ->
+  forall dep s inev mc o ret mc', ret_wf s -> snext c K lib dep s inev mc = (RStop o ret, mc') -> ret = inev.
+Proof. exact embed_returns_input_l. Qed.
+
 (* ---- the defects of the code as released (each is replayed on the library by harness/props/C14.py) ------------ *)
 (* Pbind(dur = [Rest(1), 1]): nothing is ever played (the player yields a Rest object and is not re-scheduled) *)
 Theorem rest_stops_player_refuted_unpatched :
@@ -249,6 +257,12 @@ Theorem pdelta_stale_input_refuted_unpatched :
   pans (sends unpatched K0 the_lib 0 10 6 pdelta_witness legato_half 0) = [1; 3; 4]%Z /\
   pans (sends patched K0 the_lib 0 10 6 pdelta_witness legato_half 0) = [2; 3; 4]%Z.
 Proof. exact pdelta_stale_input_refuted_unpatched_l. Qed.
+(* Pseq([Pchain(A, B), C]) with A shorter than B: when A ends Pchain returns B's last output, C's first event inherits
+   its keys (2 control pairs instead of 1) *)
+Theorem pchain_return_refuted_unpatched :
+  npar (sends unpatched Ke the_lib 0 10 6 pchain_witness [("legato"%string, VNum (F (1 # 2)))] 0) = [2; 2; 1]%nat /\
+  npar (sends patched Ke the_lib 0 10 6 pchain_witness [("legato"%string, VNum (F (1 # 2)))] 0) = [2; 1; 1]%nat.
+Proof. exact pchain_return_refuted_unpatched_l. Qed.
 (* Scale(degrees, Tuning(steps, 4.0)) forgets the octave ratio: 3 steps per octave instead of 6 *)
 Theorem scale_tuning_refuted_unpatched :
   Qred (sc_spo (scale_new unpatched [0; 1; 2]%Z [0; 4; 8] 2)) = 3 /\ Qred (sc_spo (scale_new patched [0; 1; 2]%Z [0; 4; 8] 2)) = 6.
